@@ -1,4 +1,4 @@
-(* driver for m_exc:  ref <ctx> <program tokens>   |   sch <fx> <ctx> <program tokens>
+(* driver for m_exc:  ref <ctx> <program tokens>   |   sch <fx> <sx> <ctx> <program tokens>
    ctx: 0 = nothing handled at entry, 1 = called inside a handler (top item = outer exception),
         2 = called from a generator frame inside a handler (top item empty, outer underneath) *)
 let ni s = nat_of_int (int_of_string s)
@@ -94,9 +94,9 @@ let handle = function
   | "ref" :: ctx :: toks ->
       let (s, rest) = p_stmt toks in if rest <> [] then failwith "trailing" else
       let (h, t, b) = init ctx in show (run_ref s h t b)
-  | "sch" :: fx :: ctx :: toks ->
+  | "sch" :: fx :: sx :: ctx :: toks ->
       let (s, rest) = p_stmt toks in if rest <> [] then failwith "trailing" else
-      let (h, t, b) = init ctx in show (run_sch (bool_of_string fx) s h t b)
+      let (h, t, b) = init ctx in show (run_sch (bool_of_string fx) (bool_of_string sx) s h t b)
   | _ -> "!ERR badcmd"
 
 let () = main_loop handle
